@@ -561,7 +561,9 @@ def startIters (tables : List Tbl) (iters : List Nat) :
 
 /-- what can happen between the steps of interleaved printing: an iterator is advanced for the first
 time (`start i`), or the caller changes what a table shows — `table.fmt.set_limits((a, b))` on the
-live format object (widths stay, the skipped-lines flag is forgotten), `table.records.append(r)` on the caller-owned list -/
+live format object (the skipped-lines flag and the negotiated widths are forgotten; the model does not
+cover this while a print of that table is still being consumed: the real generator then meets columns
+without width), `table.records.append(r)` on the caller-owned list -/
 inductive Ev where
   | start (i : Nat)
   | setLimits (ti : Nat) (a b : Option Int)
@@ -587,7 +589,9 @@ def runEvents (tables : List Tbl) (iters : List Nat) :
     match tables[ti]? with
     | Option.none => .error .indexError
     | some t =>
-      runEvents (tables.set ti { t with fmt := { t.fmt with limF := a, limL := b, anySkipped := Option.none } })
+      runEvents (tables.set ti { t with fmt := { t.fmt with
+          cols := t.fmt.cols.map fun c => { c with width := Option.none },
+          limF := a, limL := b, anySkipped := Option.none } })
         iters rest acc
   | .append ti r :: rest, acc =>
     match tables[ti]? with
